@@ -23,7 +23,7 @@ VERIF = os.path.normpath(os.path.join(HERE, ".."))
 LEAN = os.environ.get("RS2LEAN2_LEAN", os.path.join(VERIF, "lean"))
 REPO = os.environ.get("VERIF_REPO", "/repo")
 TOOL = os.path.join(HERE, "rs2lean2.py")
-PARTS = {1: "TranslatedAgreeB1.lean", 2: "TranslatedAgreeB2.lean", 3: "TranslatedAgreeB3.lean", 4: "TranslatedAgreeB4.lean"}
+PARTS = {1: "TranslatedAgreeB1.lean", 2: "TranslatedAgreeB2.lean", 3: "TranslatedAgreeB3.lean", 4: "TranslatedAgreeB4.lean", 5: "TranslatedAgreeB5.lean"}
 JOBS = int(os.environ.get("RS2LEAN_SELFTEST_JOBS", "4"))
 COMMITTED = os.path.join(LEAN, "JsonbModel", "Generated", "Translated2.lean")
 
@@ -36,6 +36,7 @@ F = "src/functions.rs"
 U = "src/util.rs"
 B = "src/builder.rs"
 S = "src/ser.rs"
+I = "src/iterator.rs"
 GJBI = "let mut val_offset = offset + 4 * length + 4;"
 
 # (id, file, old text, new text, which occurrence (0-based), agreement parts to check, theorem expected to fail)
@@ -97,6 +98,15 @@ MUTATIONS = [
     ("gjbn-second-loop-step-8", F, "        jentry_offset += 4;\n        val_offset += val_length;\n    }\n    result", "        jentry_offset += 8;\n        val_offset += val_length;\n    }\n    result", 0, [4], "gjbn_loop2_step"),
     ("gjbn-returns-key-offset", F, "        if name.eq(key) {\n            result = Some((val_jentry, val_encoded, val_offset));", "        if name.eq(key) {\n            result = Some((val_jentry, val_encoded, key_offset));", 0, [4], "gjbn_loop2_step"),
     ("gjbn-ignores-flag", F, "        } else if ignore_case && name.eq_ignore_ascii_case(key)", "        } else if name.eq_ignore_ascii_case(key)", 0, [4], "gjbn_loop2_step"),
+    # iterator.rs
+    ("iter-array-8x", I, "        val_offset: 4 * length + 4,", "        val_offset: 8 * length + 4,", 0, [5], "iterate_array_agrees"),
+    ("iter-array-val-offset-stuck", I, "        self.idx += 1;\n        self.val_offset += val_length;", "        self.idx += 1;", 0, [5], "array_iterator_next_agrees"),
+    ("iter-array-gt", I, "        if self.idx >= self.length {", "        if self.idx > self.length {", 0, [5], "array_iterator_next_agrees"),
+    ("iter-array-idx-2", I, "        self.idx += 1;\n        self.val_offset += val_length;", "        self.idx += 2;\n        self.val_offset += val_length;", 0, [5], "array_iterator_next_agrees"),
+    ("iter-array-jentry-8", I, "        self.val_offset += val_length;\n        self.jentry_offset += 4;", "        self.val_offset += val_length;\n        self.jentry_offset += 8;", 0, [5], "array_iterator_next_agrees"),
+    ("iter-array-item-start", I, "&self.value[self.val_offset..self.val_offset + val_length],", "&self.value[self.jentry_offset..self.val_offset + val_length],", 0, [5], "array_iterator_next_agrees"),
+    ("iter-keys-4x", I, "        key_offset: 8 * length + 4,", "        key_offset: 4 * length + 4,", 0, [5], "iteate_object_keys_agrees"),
+    ("iter-keys-offset-step", I, "        self.key_offset += key_length;", "        self.key_offset += 4;", 0, [5], "object_key_iterator_next_agrees"),
 ]
 
 # harmless re-spellings: different generated text, same logic -> the proofs must still go through
@@ -109,6 +119,7 @@ RESPELLINGS = [
     ("hex-commuted-sum", U, "n = (n << 4) + hex;", "n = hex + (n << 4);", 0, [2]),
     ("reserve-commuted", B, "    let new_len = old_len + len;", "    let new_len = len + old_len;", 0, [3]),
     ("gjbn-commuted-offsets", F, "    let mut key_offset = offset + 8 * length + 4;", "    let mut key_offset = 4 + 8 * length + offset;", 0, [4]),
+    ("iter-array-flipped-test", I, "        if self.idx >= self.length {", "        if self.length <= self.idx {", 0, [5]),
     ("gjbn-flipped-test", F, " && name.eq_ignore_ascii_case(key) && result.is_none() {", " && result.is_none() && name.eq_ignore_ascii_case(key) {", 0, [4]),
 ]
 
